@@ -343,27 +343,31 @@ j = j + 1 ;
 }
 vx_hash_quality ( drift < DRIFT_LIMIT ) ;
 }
-if self . states [ probe ] == 0 {
 proof {
+if st [ probe as int ] == 0 {
 lemma_fnot_held ( ks , st , key , j , probe as int ) ;
+lemma_finsert_ok ( ks , vs , st , key , adjust_amount , probe as int , j ) ;
 }
+else {
+lemma_fidx ( ks , st , key , probe as int ) ;
+lemma_fadjust_ok ( ks , vs , st , key , adjust_amount , probe as int ) ;
+}
+}
+if self . states [ probe ] == 0 {
 self . keys [ probe ] = Some ( key ) ;
 self . values [ probe ] = adjust_amount ;
 self . states [ probe ] = drift as u16 ;
 self . num_active += 1 ;
+}
+else {
+self . values [ probe ] += adjust_amount ;
+}
 proof {
-lemma_finsert_ok ( ks , vs , st , key , adjust_amount , probe as int , j ) ;
+if st [ probe as int ] == 0 {
 if self . keys @ =~= ks . update ( probe as int , Some ( key ) ) && self . values @ =~= vs . update ( probe as int , adjust_amount ) && self . states @ =~= st . update ( probe as int , ( j + 1 ) as u16 ) {
 }
 }
-}
 else {
-proof {
-lemma_fidx ( ks , st , key , probe as int ) ;
-}
-self . values [ probe ] += adjust_amount ;
-proof {
-lemma_fadjust_ok ( ks , vs , st , key , adjust_amount , probe as int ) ;
 if self . values @ =~= vs . update ( probe as int , ( vs [ probe as int ] + adjust_amount ) as u64 ) {
 }
 }
